@@ -1061,6 +1061,13 @@ func runC07(tb report.TB, rep *report.Reporter, c c07Case) {
 	}
 	createdRefs = append(createdRefs, remoteRef, "refs/bugs/"+mut.RefName)
 
+	if c.Seed%3 == 1 && c.Situation != "absent" {
+		// the user's git has packed the references (git gc) since the local entity was written
+		if res := RunGit(env.dir, "pack-refs", "--all", "--prune"); res.Code != 0 {
+			tb.Fatalf("harness: pack-refs: %s", res.Out)
+		}
+		rep.Class("local-references-packed-before-the-merge", 1)
+	}
 	// ---- stage 2: merge
 	beforeRefs := allRefsOf(repo)
 	var beforeOps []string
